@@ -168,7 +168,9 @@ impl ObjectReceiver {
 
     fn push_to_block(&mut self, pkt: &alc::AlcPkt, now: std::time::SystemTime) -> Result<()> {
         self.push_to_block2(pkt, now)?;
-        if pkt.lct.close_object {
+        // As long as the FDT describing the object is not known, the object cannot be
+        // completed, so the end of the transmission does not tell that packets are missing
+        if pkt.lct.close_object && self.fdt_instance_id.is_some() {
             if self.state == State::Receiving {
                 self.error("No more packet for this object", now, true);
             }
@@ -184,6 +186,10 @@ impl ObjectReceiver {
 
         if self.transfer_length.unwrap() == 0 {
             debug_assert!(self.block_writer.is_none());
+            if self.object_writer.is_none() && self.state == State::Receiving {
+                // Empty object received before its FDT, wait for the FDT
+                return Ok(());
+            }
             self.complete(now);
             return Ok(());
         }
@@ -595,7 +601,9 @@ impl ObjectReceiver {
             return;
         }
 
-        while let Some(item) = self.cache.pop() {
+        // Push the packets in the order they have been received
+        let cache = std::mem::take(&mut self.cache);
+        for item in cache {
             let pkt = item.to_pkt();
             if self.push_to_block(&pkt, now).is_err() {
                 self.error("Fail to push block", now, false);
